@@ -6,47 +6,38 @@ import Paroxy.Proofs.FlatPath
 import Paroxy.Proofs.NodeFeature
 namespace Paroxy.Flat
 
+/-! ## Key part of a `key=value` line -/
+
+theorem keyPart_keyval : ∀ (K V : Str), '=' ∉ K → keyPart (K ++ '=' :: V) = K
+  | [], V, _ => by simp [keyPart]
+  | c :: K, V, h => by
+    have hc : c ≠ '=' := fun e => h (by simp [e])
+    have hK : '=' ∉ K := fun e => h (List.mem_cons_of_mem _ e)
+    have ih := keyPart_keyval K V hK
+    simp only [keyPart] at ih ⊢
+    simp [List.takeWhile, hc, ih]
+
+theorem drop_keyPart_keyval (K V : Str) (h : '=' ∉ K) :
+    (K ++ '=' :: V).drop (keyPart (K ++ '=' :: V)).length = '=' :: V := by
+  rw [keyPart_keyval K V h]; exact List.drop_left
+
 /-! ## `unquote` -/
 
-/-- The scan of `unquote` passes unchanged through a text without `=`. -/
-theorem unquoteLine_append_of_no_eq : ∀ (K L : Str), '=' ∉ K → unquoteLine (K ++ L) = K ++ unquoteLine L
-  | [], L, _ => rfl
-  | c :: K, L, h => by
-    have hc : (c == '=') = false := by
-      cases hb : c == '=' with
-      | false => rfl
-      | true => exact absurd (by simp [beq_iff_eq.mp hb]) h
-    have hK : '=' ∉ K := fun e => h (List.mem_cons_of_mem _ e)
-    simp only [List.cons_append, unquoteLine, hc, Bool.false_eq_true, if_false,
-      unquoteLine_append_of_no_eq K L hK]
+theorem unquoteLine_keyval' {K V : Str} (hK : '=' ∉ K) :
+    unquoteLine (K ++ '=' :: V) = K ++ '=' :: unquoteValue V := by
+  unfold unquoteLine
+  simp only [keyPart_keyval K V hK, List.drop_left]
 
-theorem unquoteLine_of_no_quote : ∀ (V : Str), (∀ z ∈ V, isQuote z = false) → unquoteLine V = V
-  | [], _ => rfl
-  | c :: V, h => by
-    have hV : ∀ z ∈ V, isQuote z = false := fun z hz => h z (List.mem_cons_of_mem _ hz)
-    have ih := unquoteLine_of_no_quote V hV
-    unfold unquoteLine
-    split
-    · cases V with
-      | nil => rfl
-      | cons q body =>
-        have hq : isQuote q = false := h q (by simp)
-        simp only [hq, Bool.false_and, Bool.false_eq_true, if_false, ih]
-    · rw [ih]
-
-theorem unquoteLine_eq_cons (q : Char) (body : Str) (hq : isQuote q = false) :
-    unquoteLine ('=' :: q :: body) = '=' :: unquoteLine (q :: body) := by
-  rw [unquoteLine]
-  simp [hq]
-
-theorem unquoteFixes_of_no_quote (V : Str) (h : ∀ z ∈ V, isQuote z = false) : unquoteFixes V = true := by
-  unfold unquoteFixes
-  rw [beq_iff_eq]
+theorem unquoteValue_of_no_quote (V : Str) (h : ∀ z ∈ V, isQuote z = false) : unquoteValue V = V := by
   cases V with
   | nil => rfl
   | cons q body =>
     have hq : isQuote q = false := h q (by simp)
-    rw [unquoteLine_eq_cons q body hq, unquoteLine_of_no_quote (q :: body) h]
+    simp [unquoteValue, hq]
+
+theorem unquoteFixes_of_no_quote (V : Str) (h : ∀ z ∈ V, isQuote z = false) : unquoteFixes V = true := by
+  unfold unquoteFixes
+  rw [beq_iff_eq]; exact unquoteValue_of_no_quote V h
 
 theorem length_unquoteTreeItems : ∀ xs : List Val, (unquoteTreeItems xs).length = xs.length
   | [] => rfl
@@ -67,7 +58,7 @@ theorem no_quote_dec (n : Nat) : ∀ z ∈ dec n, isQuote z = false := by
 /-- A line `K=V` whose key has no `=` and whose value part is fixed by the pass is fixed by the pass. -/
 theorem unquoteLine_keyval {K V : Str} (hK : '=' ∉ K) (hV : unquoteFixes V = true) :
     unquoteLine (K ++ '=' :: V) = K ++ '=' :: V := by
-  rw [unquoteLine_append_of_no_eq K _ hK]
+  rw [unquoteLine_keyval' hK]
   unfold unquoteFixes at hV
   rw [beq_iff_eq.mp hV]
 
@@ -120,7 +111,7 @@ theorem unquote_dumpP (h : Str → Str) (hh : HashNoQuote h) : ∀ (v : Val) (pr
   | .scalar r k, pre, path, hpre, _, hwf => by
     simp only [wfUnquote, beq_iff_eq] at hwf
     simp only [dumpP, unquoteTree, unquote, List.map_cons, List.map_nil, scalarLine]
-    rw [unquoteLine_append_of_no_eq pre _ hpre, hwf]
+    rw [unquoteLine_keyval' hpre, hwf]
 theorem unquote_dumpPFields (h : Str → Str) (hh : HashNoQuote h) : ∀ (fs : List (Str × Val)) (pre path : Str) (i : Nat),
     '=' ∉ pre → (∀ z ∈ path, isQuote z = false) → wfUnquoteFields fs = true →
     unquote (dumpPFields h pre path i fs) = dumpPFields h pre path i (unquoteTreeFields fs)
@@ -226,24 +217,21 @@ abbrev kindKey : Str := cs!"/kind"
 
 theorem kindMark_eq : kindMark = kindKey ++ ['='] := rfl
 
-/-- On a `key=value` line whose value does not contain `/kind=`, the pass looks at the key only:
-the line is deleted iff the key ends with `/kind` and has something before it. -/
-theorem isKindLine_keyval {K V : Str} (hK : '=' ∉ K) (hV : hasInfix kindMark V = false) :
+/-- On a `key=value` line the pass looks at the key only: the line is deleted iff the key ends with
+`/kind` and has something before it. -/
+theorem isKindLine_keyval {K V : Str} (hK : '=' ∉ K) :
     isKindLine (K ++ '=' :: V) = true ↔ ∃ X, X ≠ [] ∧ K = X ++ kindKey := by
   unfold isKindLine
-  rw [hasInfixAfter1_iff]
+  simp only [keyPart_keyval K V hK, Bool.and_eq_true, decide_eq_true_eq, List.isSuffixOf_iff_suffix]
   constructor
-  · rintro ⟨a, b, ha, h⟩
-    have h' : (a ++ kindKey) ++ '=' :: b = K ++ '=' :: V := by
-      rw [h]; simp [kindMark]
-    rcases split_first hK h' with ⟨h1, _⟩ | ⟨E, h1, h2⟩
-    · exact ⟨a, ha, h1.symm⟩
-    · obtain ⟨a', ha'⟩ := lit_suffix_inside (Q := kindKey) (by decide) h1
-      have : hasInfix kindMark V = true :=
-        (hasInfix_iff kindMark V).mpr ⟨a', b, by rw [h2, ha']; simp [kindMark]⟩
-      rw [hV] at this; cases this
+  · rintro ⟨⟨_, ⟨X, hX⟩⟩, hlen⟩
+    refine ⟨X, ?_, hX.symm⟩
+    rintro rfl
+    rw [← hX] at hlen; simp at hlen
   · rintro ⟨X, hX, rfl⟩
-    exact ⟨X, V, hX, by simp [kindMark]⟩
+    have : 0 < X.length := List.length_pos_iff.mpr hX
+    refine ⟨⟨by simp, ⟨X, rfl⟩⟩, ?_⟩
+    simp only [List.length_append]; simp; omega
 
 /-- Keys made of a prefix and one of the four structural markers never end with `/kind`. -/
 theorem not_kind_suffix_of_tail5 {pre lit tail : Str} (head : Str) (hl : lit = head ++ tail)
@@ -260,8 +248,7 @@ theorem isKindLine_marker {pre lit V : Str} (head tail : Str) (hl : lit = head +
   | false => rfl
   | true =>
     have hK : '=' ∉ pre ++ lit := not_mem_append_lit hpre hlit
-    have hVk : hasInfix kindMark V = false := hasInfix_false_of_not_mem (c := '=') (by decide) hV
-    exact absurd ((isKindLine_keyval hK hVk).mp hb) (not_kind_suffix_of_tail5 head hl h5 hne)
+    exact absurd ((isKindLine_keyval hK).mp hb) (not_kind_suffix_of_tail5 head hl h5 hne)
 
 theorem isKindLine_typeLine {pre ty : Str} (hpre : '=' ∉ pre) (hty : '=' ∉ ty) :
     isKindLine (typeLine pre ty) = false := by
@@ -290,14 +277,13 @@ theorem isKindLine_posLine {pre path : Str} (n : Nat) (hpre : '=' ∉ pre) (hpat
   exact ⟨eq_not_mem_dec n, by decide, fun h => hpath (List.mem_of_mem_drop h)⟩
 
 /-- A scalar line is deleted iff the field is called `kind` and its node is below the root. -/
-theorem isKindLine_scalarLine {ppre n r : Str} (hpre : '=' ∉ ppre) (hn : '=' ∉ n) (hn' : '/' ∉ n)
-    (hr : hasInfix kindMark r = false) :
+theorem isKindLine_scalarLine {ppre n r : Str} (hpre : '=' ∉ ppre) (hn : '=' ∉ n) (hn' : '/' ∉ n) :
     isKindLine (scalarLine (subPre ppre n) r) = (!ppre.isEmpty && n == cs!"kind") := by
   have hK : '=' ∉ subPre ppre n := by
     simp only [subPre, List.mem_append, List.mem_cons, not_or]; exact ⟨hpre, by decide, hn⟩
   have key : isKindLine (scalarLine (subPre ppre n) r) = true ↔ (ppre ≠ [] ∧ n = cs!"kind") := by
     unfold scalarLine
-    rw [isKindLine_keyval hK hr]
+    rw [isKindLine_keyval hK]
     constructor
     · rintro ⟨X, hX, h⟩
       have h' : ppre ++ '/' :: n = X ++ '/' :: cs!"kind" := by simpa [subPre, kindKey] using h
@@ -384,8 +370,7 @@ theorem suppressKinds_dumpPFields (h : Str → Str) (hh : HashNoEq h) : ∀ (fs 
     have ih := suppressKinds_dumpPFields h hh rest pre path (i + 1) hpre hpath hrest
     cases v with
     | scalar r k =>
-      have hr : hasInfix kindMark r = false := by simpa [wfKinds] using hv
-      have hk := isKindLine_scalarLine (r := r) hpre hn hn' hr
+      have hk := isKindLine_scalarLine (r := r) hpre hn hn'
       cases hc : (!pre.isEmpty && n == cs!"kind") with
       | true =>
         -- the `kind` field is the last one: nothing is renumbered
@@ -419,9 +404,8 @@ theorem suppressKinds_dumpPItems (h : Str → Str) (hh : HashNoEq h) : ∀ (xs :
     have ih := suppressKinds_dumpPItems h hh rest pre path (i + 1) hpre hpath hwf.2
     cases v with
     | scalar r k =>
-      have hr : hasInfix kindMark r = false := by simpa [wfKinds] using hwf.1
       have hk := isKindLine_scalarLine (ppre := pre) (n := dec i) (r := r) hpre (eq_not_mem_dec i)
-        (slash_not_mem_dec i) hr
+        (slash_not_mem_dec i)
       rw [dec_ne_kind, Bool.and_false] at hk
       simp only [dumpPItems, dumpP, dropKindsItems, dropKinds, List.cons_append, List.nil_append]
       rw [suppressKinds_cons_keep _ hk, ih]
